@@ -186,6 +186,74 @@ def check_loopback(n_msgs: int):
     return out
 
 
+def check_loopback_with_faults(params_name: str, faults: tuple):
+    """The real send loop with transient send errors at the given transmission indices; every datagram that did leave
+    the node is looped back (multicast) into the real read loop together with a foreign message."""
+    from sdc11073.wsdiscovery import networkingthread as nt_mod
+    from sdc11073.wsdiscovery import wsdimpl
+    from sdc11073.xml_types import wsd_types
+    from sdc11073.xml_types.addressing_types import HeaderInformationBlock
+
+    class Wsd:
+        def __init__(self):
+            self.got = []
+
+        def handle_received_message(self, received_message, addr):  # noqa: ARG002
+            self.got.append(received_message.p_msg.header_info_block.MessageID)
+
+    class FaultySock(H.FakeSock):
+        def __init__(self, clock):
+            super().__init__(clock)
+            self.attempts = 0
+
+        def sendto(self, data, addr):
+            self.attempts += 1
+            if self.attempts - 1 in faults:
+                raise OSError('transient send error (injected)')
+            super().sendto(data, addr)
+
+    def mk(n):
+        payload = wsd_types.ProbeType()
+        inf = HeaderInformationBlock(action=payload.action, addr_to='urn:docs-oasis-open-org:ws-dd:ns:discovery:2009:01',
+                                     message_id=f'urn:uuid:00000000-0000-0000-0000-{n:012d}')
+        return wsdimpl._mk_wsd_soap_message(inf, payload)  # noqa: SLF001
+
+    params = getattr(nt_mod, params_name)
+    wsd = Wsd()
+    nt = H.mk_networking_thread(wsd)
+    clock = H.SteppingTime(1000.0)
+    sock = FaultySock(clock)
+    nt._outbound_selector = H.FakeSelector(sock)  # noqa: SLF001
+    old_r, old_t = nt_mod.random, nt_mod.time
+    nt_mod.random, nt_mod.time = H.FixedRandom(0, params.min_delay_ms), clock
+    own, foreign = mk(1), mk(2)
+    out = []
+    tag = params_name.split('_')[0].lower()
+    try:
+        nt.add_outbound_message(own, '239.255.255.250', 3702, params)
+        nt._quit_send_event.set()  # noqa: SLF001
+        try:
+            nt._run_send()  # noqa: SLF001
+        except OSError as ex:
+            return [(f'{P}/send-error-ends-send-loop/{tag}', f'faults at transmissions {faults}: {ex}')]
+    finally:
+        nt_mod.random, nt_mod.time = old_r, old_t
+    if sock.attempts != 1 + params.repeat:
+        out.append((f'{P}/send-fault-changes-count/{tag}', f'faults at {faults}: {sock.attempts} transmission attempts, '
+                                                           f'expected {1 + params.repeat}'))
+    datagrams = [(('127.0.0.1', 3702), data) for _t, data, _a in sock.sent]
+    datagrams.insert(len(datagrams) // 2, (('10.0.0.1', 3702), foreign.serialize()))
+    H.run_q_read(nt, datagrams)
+    own_id, foreign_id = own.p_msg.header_info_block.MessageID, foreign.p_msg.header_info_block.MessageID
+    if own_id in wsd.got:
+        out.append((f'{P}/own-message-dispatched/after-send-fault/{tag}',
+                    f'send errors at transmissions {faults}: the looped-back own message was dispatched '
+                    f'{wsd.got.count(own_id)} time(s)'))
+    if wsd.got.count(foreign_id) != 1:
+        out.append((f'{P}/foreign-message-lost/{tag}', f'foreign message dispatched {wsd.got.count(foreign_id)} times'))
+    return out
+
+
 def run(ctx):
     import logging
     logging.disable(logging.CRITICAL)
@@ -202,6 +270,16 @@ def run(ctx):
     R.run_shards(ctx, __name__, 'shard_send_loop',
                  [(name, s, stride * 4) for name in ('UNICAST_REPEAT_PARAMS', 'MULTICAST_REPEAT_PARAMS')
                   for s in (0, stride, 2 * stride, 3 * stride)])
+    import itertools
+    for name in ('UNICAST_REPEAT_PARAMS', 'MULTICAST_REPEAT_PARAMS'):
+        n_tx = 1 + getattr(nt_mod, name).repeat
+        for k in range(n_tx + 1):
+            for faults in itertools.combinations(range(n_tx), k):
+                case = {'params': name, 'faults': list(faults)}
+                ctx.case(case, bool(faults) and len(faults) < n_tx, 'loopback_faults')
+                for sig, detail in check_loopback_with_faults(name, tuple(faults)):
+                    ctx.finding(sig, detail, case, 'loopback_faults')
+    ctx.exhaustive_parts.append('loopback_faults: every subset of failing transmissions, both parameter sets')
     for n in (1, 5, 60):  # up to 120 own ids: inside the 200 ids the node remembers
         case = {'n_msgs': n}
         ctx.case(case, True, 'loopback')
@@ -210,6 +288,8 @@ def run(ctx):
 
 
 def replay(part, case):
+    if part == 'loopback_faults':
+        return check_loopback_with_faults(case['params'], tuple(case['faults']))
     if part == 'schedule':
         return check_schedule(case['params'], case['initial'], case['gap'])
     if part == 'send_loop':
